@@ -2,7 +2,7 @@
 # mkworktree.sh <dir> - scratch git worktree of /repo at HEAD with a working autotools build
 set -e
 d="$1"
-git -C /repo worktree add -f --detach "$d" HEAD >/dev/null 2>&1
+(flock 9; git -C /repo worktree add -f --detach "$d" HEAD >/dev/null 2>&1) 9>/tmp/.wtlock
 # generated, git-ignored build infrastructure (configure, Makefile.in, ...) comes from /repo
 rsync -a --exclude .git --exclude '*.o' --exclude '*.lo' --exclude '*.la' --exclude '.libs' --exclude '.deps' /repo/ "$d"/
 cd "$d"
